@@ -11,7 +11,7 @@ Parties
           against the real loop body with probes injected by replacing `np_fns.randn` IN THIS PROCESS,
           and `Rng.hutchProg` (loop condition, key chain) against the real iteration counts
 
-Streams (all randomness from random.Random(ctx.seed) except stream (v), see there)
+Streams (all randomness from random.Random(ctx.seed))
   (i)+(ii) scripts: user draws from numpy.random (randn / rand / normal / randint / seed / set_state) interleaved
           with cola calls; every cola call occurs twice (same operator, key, parameters; once on the same
           operator object and once on a rebuilt one) at different points of the script.  Checked:
@@ -24,20 +24,20 @@ Streams (all randomness from random.Random(ctx.seed) except stream (v), see ther
           integer operator, any offset k: the returned mean equals np.diag(A, k) exactly.
   (iv)    iterations <= max_iters, counted with an operator that counts its products, cross-checked with
           info['iterations'] - 1 (the info field counts evaluations of the loop condition).
-  (v)     z-test of the estimate against the true (off-)diagonal with the standard error implied by the
-          estimator's own variance (closed form from the operator: sum_{j != s} A[r,j]^2 (+ 2 A[r,s]^2 for
-          normal probes)), threshold 6 sigma.  Correspondence tier, statistical.  The cases (operators AND
-          keys) come from a FIXED seed set that does not depend on VERIF_SEED, so on an unchanged tree the
-          outcome is deterministic (no false alarm possible once it passed; max |z| is recorded).  If the
-          draws changed (other generator, other key chain) the false-alarm probability of one run is at most
-          (#components tested) * 2e-9 by the Gaussian tail bound at 6 sigma with >= 2000 samples per
-          component (about 1e-6 for the ~600 components); documented, not hidden.
+  (v)     sequential test of unbiasedness with a stated false-alarm probability (<= 1e-9 per run): the deviation of the
+          accumulated sum from iterations*bs*np.diag(A, k) against a Hoeffding (Rademacher) / sub-gamma (normal) martingale
+          bound built from the estimator's exact variance, valid for every stopping rule (Ville's maximal inequality);
+          a component beyond the first threshold is re-tested K times with fresh keys and 4x the samples and is a
+          VIOLATION only if it fails all K.  Operators AND keys come from ctx.seed.  Derivation: comment above stream_ztest.
   (L)     Lean correspondence: integer operators and injected integer probe blocks; real mean must equal the
           model's diag_sum / (iters * bs) bit for bit; the model loop fed with the observed `err > tol`
           decisions must make the same number of iterations, and the keys the real loop passes to randn must
           be the sha256 chain next_key^t(key0).
-  (T)     site trace: a transparent counting wrapper around np_fns.randn records the source line of every
-          caller during all streams; every observed line must be a site of the generated table.
+  (T)     site trace: a transparent counting wrapper around np_fns.randn (and around np.random.default_rng for callers
+          inside cola) records the source line of every caller during all streams; every observed line must be a site of
+          the generated table, and the evidence lists per table entry (routine, site, file:line) whether it was executed.
+          Round 2: ALL 17 library sites are executed (cola/linalg/tbd routines through the local shims `LocalShims`,
+          `DenseWithOps`, `vjp_affine` below - ours, not cola's, named in the evidence).
 """
 import hashlib
 import importlib
@@ -100,8 +100,70 @@ def load_cola():
     L.power = sys.modules.get("cola.linalg.eig.power_iteration") or importlib.import_module("cola.linalg.eig.power_iteration")
     L.lanczos = sys.modules["cola.linalg.decompositions.lanczos"]
     L.arnoldi = sys.modules["cola.linalg.decompositions.arnoldi"]
+    L.nullspace = importlib.import_module("cola.linalg.tbd.nullspace")
+    L.svrg = importlib.import_module("cola.linalg.tbd.svrg")
     L.orig_randn = np_fns.randn
+    L.orig_default_rng = np.random.default_rng
+
+    class DenseWithOps(cola.ops.Dense):
+        """LOCAL SHIM (not cola's): `krylov_constraint_solve_upto_r` reads the backend from `C.ops`, an attribute no
+        cola operator has (AttributeError on every real operator); this subclass supplies it so that the routine -
+        and its random-draw site - can be executed at all."""
+        ops = np_fns
+
+    L.DenseWithOps = DenseWithOps
     L.ready = True
+
+
+def vjp_affine(fun, primals, duals, create_graph=True):
+    """LOCAL SHIM (not cola's) for `xnp.vjp_derivs`, which the NumPy backend does not implement: vector-Jacobian
+    product of a function that is AFFINE in every single parameter entry (true for `theta -> unflatten(theta) @ probes`
+    of Dense / Diagonal / Sum / Kronecker operators), evaluated entry by entry: exact up to rounding, deterministic."""
+    primals = [np.asarray(x_) for x_ in primals]
+    base = np.asarray(fun(*primals))
+    out = []
+    for idx, prm in enumerate(primals):
+        g = np.zeros_like(prm)
+        for e in range(prm.size):
+            q = [np.array(x_, copy=True) for x_ in primals]
+            q[idx].flat[e] += 1
+            g.flat[e] = np.sum(np.asarray(duals) * (np.asarray(fun(*q)) - base))
+        out.append(g)
+    return tuple(out)
+
+
+class LocalShims:
+    """installs, for the duration of ONE call, what a routine of cola/linalg/tbd needs to reach its draw site on the
+    NumPy backend; everything is removed afterwards (also on exceptions)"""
+    def __init__(self, eigmax=False, vjp=False, jax_standin=False):
+        self.eigmax, self.vjp, self.jax = eigmax, vjp, jax_standin
+
+    def __enter__(self):
+        if self.eigmax:      # nullspace.py: `eigmax = None  # TODO: fix`
+            self.saved_eigmax = L.nullspace.eigmax
+            L.nullspace.eigmax = lambda A, tol=None: L.cola.linalg.eigmax(A)
+        if self.vjp:
+            self.saved_vjp = L.np_fns.vjp_derivs
+            L.np_fns.vjp_derivs = vjp_affine
+        if self.jax and "jax" not in sys.modules:
+            import types
+            # an inert stand-in so that the statement `import jax`, which PRECEDES the draw in solve_svrg_rff,
+            # succeeds; it offers nothing but the class-registration hook cola's metaclass calls
+            m = types.ModuleType("jax")
+            m.tree_util = types.SimpleNamespace(register_pytree_node_class=lambda cls: cls)
+            m.__c17_standin__ = True
+            sys.modules["jax"] = m
+            self.jax_installed = True
+        return self
+
+    def __exit__(self, *a):
+        if self.eigmax:
+            L.nullspace.eigmax = self.saved_eigmax
+        if self.vjp:
+            L.np_fns.vjp_derivs = self.saved_vjp
+        if getattr(self, "jax_installed", False):
+            sys.modules.pop("jax", None)
+        return False
 
 
 # ------------------------------------------------------------------------------------------------
@@ -110,7 +172,9 @@ class Trace:
     def __init__(self):
         self.sites = {}       # "cola/...py:line" -> count
         self.unkeyed = {}     # same, calls with key None
+        self.local_sites = {}  # callers (inside cola) of np.random.default_rng
         self.draws = 0
+        self.calllog = None   # while a cola call of the script stream runs: [(site, key, sha1 of the drawn bytes)]
 
     def install(self):
         orig = L.orig_randn
@@ -125,13 +189,31 @@ class Trace:
             if key is None:
                 trace.unkeyed[loc] = trace.unkeyed.get(loc, 0) + 1
             trace.draws += 1
-            return orig(*shape, dtype=dtype, device=device, key=key)
+            z = orig(*shape, dtype=dtype, device=device, key=key)
+            if trace.calllog is not None:
+                trace.calllog.append((loc, repr(key), hashlib.sha1(np.ascontiguousarray(z).tobytes()).hexdigest()))
+            return z
 
         randn.__c17_wrapper__ = True
         L.np_fns.randn = randn
+        orig_rng = L.orig_default_rng
+
+        def default_rng(*a, **kw):
+            f = sys._getframe(1)
+            fn = os.path.abspath(f.f_code.co_filename)
+            if fn.startswith(os.path.join(base, "cola") + os.sep):
+                loc = f"{os.path.relpath(fn, base).replace(os.sep, '/')}:{f.f_lineno}"
+                trace.local_sites[loc] = trace.local_sites.get(loc, 0) + 1
+                trace.draws += 1
+                if trace.calllog is not None:
+                    trace.calllog.append((loc, repr((a, sorted(kw.items()))), "local-generator"))
+            return orig_rng(*a, **kw)
+
+        np.random.default_rng = default_rng
 
     def uninstall(self):
         L.np_fns.randn = L.orig_randn
+        np.random.default_rng = L.orig_default_rng
 
 
 # ------------------------------------------------------------------------------------------------
@@ -363,6 +445,50 @@ def r_lobpcg(A, key, p):     # local generator
     return [e, V]
 
 
+def r_nullspace(A, key, p):   # un-keyed; needs the local shims DenseWithOps (C.ops) and eigmax
+    C = L.DenseWithOps(np.asarray(A.to_dense())[:p["rows"], :])
+    with LocalShims(eigmax=True):
+        Q, inf = L.nullspace.krylov_constraint_solve_upto_r(C, p["r"], tol=p["tol"], max_iter=p["max_iter"], info=True)
+    return [Q]
+
+
+def _gram_product(A):
+    """Product[Dense, Dense] B @ B^T, the argument type of the svrg routines"""
+    B = np.asarray(A.to_dense())
+    return L.cola.ops.Dense(B) @ L.cola.ops.Dense(np.ascontiguousarray(B.T))
+
+
+def r_svrg_eigh_max(A, key, p):   # un-keyed; draws, then `import jax` fails on this image (ModuleNotFoundError)
+    return list(L.svrg.svrg_eigh_max(_gram_product(A), k=p["k"], bs=1, max_iters=2))
+
+
+def r_svrg_solveh(A, key, p):     # un-keyed; the same
+    n = A.shape[0]
+    b = np.arange(1.0, n * p["k"] + 1).reshape(n, p["k"]).astype(A.dtype)
+    return list(L.svrg.svrg_solveh(_gram_product(A), b, bs=1, max_iters=2))
+
+
+def r_svrg_rff(A, key, p):        # un-keyed; `import jax` PRECEDES the draw: inert stand-in module, see LocalShims
+    n = A.shape[0]
+    P = _gram_product(A)
+    M = P + L.cola.ops.Diagonal(np.ones(n, dtype=A.dtype))
+    b = np.arange(1.0, n * p["k"] + 1).reshape(n, p["k"]).astype(A.dtype)
+    with LocalShims(jax_standin=True):
+        return list(L.svrg.solve_svrg_rff(M, b, bs=1, max_iters=2))
+
+
+def r_slq_bwd(A, key, p):
+    """the backward rule of stochastic_lanczos_quad, called the way cola/utils/custom_autodiff.py calls it (there is no
+    autograd on the NumPy backend, so it is never reached through a gradient here); `xnp.vjp_derivs` is the local shim"""
+    fun = FUNS[p["fun"]]
+    par, unflatten = A.flatten()
+    kw = dict(num_samples=p["num_samples"], max_iters=p["max_iters"], tol=1e-6, pbar=False, key=key)
+    out = L.slq.slq_fwd(A, fun, **kw)
+    with LocalShims(vjp=True):
+        dA, *_ = L.slq.slq_bwd((par, out), np.ones_like(out), unflatten, fun, **kw)
+    return [out, dA]
+
+
 def p_hutch(rng, n):
     return {"k": rng.randint(-(n - 1), n - 1) if rng.random() < 0.75 else 0,
             "rand": rng.choice(["normal", "rademacher"]),
@@ -389,9 +515,18 @@ ROUTINES = {
     "select_rank_adaptively": (r_selrank, False, True, lambda rng, n: {"rank": 1, "rank_max": rng.randint(1, n), "tol": rng.choice([1e-1, 1e-3])}, 3),
     "randomized_svd": (r_rsvd, False, False, lambda rng, n: {"rank": rng.randint(1, n)}, 2),
     "lobpcg": (r_lobpcg, False, True, lambda rng, n: {"max_iters": rng.randint(1, 3)}, 4),
+    # round 2: the remaining library entries of the table (cola/linalg/tbd), executed with the LOCAL shims above
+    "krylov_constraint_solve_upto_r": (r_nullspace, False, False, lambda rng, n: {"rows": rng.randint(1, n - 1), "r": rng.randint(1, 3),
+                                                                                  "tol": 1e-3, "max_iter": rng.choice([5, 40])}, 3),
+    "svrg_eigh_max": (r_svrg_eigh_max, False, False, lambda rng, n: {"k": rng.randint(1, 2)}, 2),
+    "svrg_solveh": (r_svrg_solveh, False, False, lambda rng, n: {"k": rng.randint(1, 2)}, 2),
+    "solve_svrg_rff": (r_svrg_rff, False, False, lambda rng, n: {"k": rng.randint(1, 2)}, 2),
+    "slq_bwd": (r_slq_bwd, True, True, lambda rng, n: {"fun": "log", "num_samples": rng.randint(1, 4), "max_iters": rng.randint(2, n)}, 2),
 }
 # weights: expensive routines less often
-WEIGHT = {"AdaNysPrecond": 0.25, "select_rank_adaptively": 0.3, "lobpcg": 0.5}
+WEIGHT = {"AdaNysPrecond": 0.25, "select_rank_adaptively": 0.3, "lobpcg": 0.5, "slq_bwd": 0.5}
+# which table routine(s) an entry point reaches (documentation for the evidence; the dynamic trace is what counts)
+REASON_NOT_EXECUTED = {}      # loc -> reason, for table sites no entry point above can reach (none at present)
 
 
 def gen_call(rng, name=None):
@@ -409,12 +544,27 @@ def do_call(call, A=None):
     """returns (digest or 'EXC:…', exception text)"""
     fn = ROUTINES[call["routine"]][0]
     A = A if A is not None else build(call["op"])
+    tr = getattr(L, "trace", None)
+    if tr is not None:
+        tr.calllog = []
     try:
-        with np.errstate(all="ignore"):
-            out = fn(A, call["key"], call["params"])
-        return digest(out), None
-    except Exception as ex:   # the state must be unchanged on this path as well
-        return "EXC:" + type(ex).__name__, f"{type(ex).__name__}: {ex}"
+        try:
+            with np.errstate(all="ignore"):
+                out = fn(A, call["key"], call["params"])
+            res, exc = digest(out), None
+        except Exception as ex:   # the state must be unchanged on this path as well
+            res, exc = "EXC:" + type(ex).__name__, f"{type(ex).__name__}: {ex}"
+    finally:
+        log = tr.calllog if tr is not None else []
+        if tr is not None:
+            tr.calllog = None
+    # determinism is judged on the returned bytes AND on the sequence of draws (site, key, sha1 of the drawn block):
+    # a routine that raises after its draw (svrg.*: `import jax`) is still compared on what it drew
+    return res + "|draws:" + hashlib.sha1(repr(log).encode()).hexdigest()[:16] + f"#{len(log)}", exc
+
+
+def result_part(dg):
+    return dg.split("|draws:")[0]
 
 
 # ------------------------------------------------------------------------------------------------
@@ -585,7 +735,7 @@ def stream_scripts(ctx, S, rng, nscripts, trace):
             dg, exc = do_call(other)
             np.random.set_state(before)
             S.key_checked += 1
-            if exc is None and dg == digs[0][0][0]:
+            if exc is None and result_part(dg) == result_part(digs[0][0][0]):
                 S.key_insensitive.append({"kind": "key-ignored", "call": call, "other_key": other["key"],
                                           "detail": "bit-identical results for two different keys although random numbers were drawn"})
 
@@ -889,56 +1039,194 @@ def stream_lean(ctx, S, rng, ncases, cov):
 
 
 # ------------------------------------------------------------------------------------------------
-# (v) z-test, FIXED seed set -------------------------------------------------------------------------
-ZSEED = 20240917
-ZSIGMA = 6.0
+# (v) sequential test of unbiasedness with a STATED false-alarm probability ---------------------------
+#
+# Estimator.  One probe column c gives X_c = (A z_c)[r] * z_c[s] for the component t (r = t + max(0,-k), s = t + max(0,k));
+# the routine returns the mean of the N = iterations * bs columns it drew.  With a_j = A[r, j], rho^2 = sum_{j != s} a_j^2:
+#   Rademacher  X_c - a_s = sum_{j != s} a_j eps_j,  eps_j = z_j z_s  i.i.d. uniform signs        Var = rho^2
+#   normal      X_c - a_s = a_s (g_s^2 - 1) + rho g_s h,  h ~ N(0,1) independent of g_s
+#                         = l+ (u^2 - 1) + l- (v^2 - 1),  u, v i.i.d. N(0,1),  l+- = (a_s +- sqrt(a_s^2 + rho^2)) / 2
+#                                                                                                   Var = rho^2 + 2 a_s^2
+# (both variances are PROVED: theorems C17_variance_sign_gaussian / C17_variance_rademacher / C17_variance_gaussian).
+# Tail bound, RIGOROUS for the ideal i.i.d. law (no normal approximation).  S_i = sum over the first i blocks of
+# (X_c - a_s) is a martingale in i with independent increments whose log-moment-generating function per column is
+#   Rademacher  psi(theta) <= theta^2 rho^2 / 2                         (Hoeffding's lemma: cosh x <= exp(x^2/2))
+#   normal      psi(theta) <= (sigma^2/2) theta^2 / (1 - c theta),  sigma^2 = 2(l+^2 + l-^2) = Var,  c = 2 max|l+-| = |a_s| + sqrt(a_s^2 + rho^2)
+#               (-y - log(1-2y)/2 <= y^2/(1-2y) for 0 <= y < 1/2 and <= y^2 for y < 0: Laurent-Massart 2000, Lemma 1;
+#                sub-gamma, Boucheron-Lugosi-Massart, Concentration Inequalities, sect. 2.4)
+# exp(theta S_i - i bs psi(theta)) is a non-negative martingale started at 1, so by Ville's / Doob's maximal inequality,
+# with psi >= 0 and optimising theta as usual, for EVERY stopping rule tau <= Nmax blocks (the routine's
+# `err(state) > tol` rule included - no optional-stopping caveat):
+#     P( |S_tau| >= sigma sqrt(2 Nmax bs x) + c x )  <=  2 exp(-x)        (c = 0 for Rademacher).
+# The statistic is therefore the deviation of the SUM, |mean - true| * tau * bs, against the bound at the CAP Nmax = max_iters
+# (when the loop runs to the cap - the rule for tol = 0.0011 - this is |z| >= sqrt(2x) (+ c x / (sigma sqrt(N))), z the usual
+# z-score with the exact standard error).  Rounding: float64 sums of <= 1e5 terms, relative error < 1e-11, covered by SLACK.
+# Caveat that remains: the bound is for independent N(0,1) draws; NumPy's MT19937 seeded with sha256-derived keys is taken
+# to deliver them (trusted base), fresh keys = independent samples.
+#
+# Procedure.  Stage 1: every component of every case, threshold exponent X1.  A component that exceeds it is re-tested
+# K times with FRESH keys and REP_FACTOR times the cap; VIOLATION iff it exceeds the threshold with exponent X2 in ALL K
+# replications (a genuine bias b is persistent: the replications see it with REP_FACTOR^(1/2) times the signal-to-noise).
+# False alarm (union bound over the C components of stage 1, independence of the replications):
+#     P(any VIOLATION on an unbiased estimator) <= C * 2 exp(-X1) * (2 exp(-X2))^K <= ALPHA,   K chosen accordingly.
+# Power (same inequality, one-sided): a component whose expectation is off by b >= (sqrt(2 X1) + d) se1, se1 = sigma/sqrt(Nmax bs)
+# (normal probes: + c X1/(Nmax bs)), is flagged at stage 1 with probability >= 1 - exp(-d^2/2) and then fails each replication
+# with probability >= 1 - exp(-(sqrt(REP_FACTOR)(sqrt(2 X1) + d) - sqrt(2 X2))^2 / 2); for d = 4.5: >= 1 - 5e-5 overall.
+# The previous test (single shot, |z| > 6, fixed seed set) is implied for every persistent bias: 6 > sqrt(2 X1) = 3.46.
+Z_X1 = 6.0
+Z_X2 = 8.0
+Z_REP_FACTOR = 4
+Z_ALPHA = 1e-9
+Z_SLACK = 1e-9
+
+
+def z_components(D, k, rand):
+    """per component t: (r, s, sigma^2, c) - exact variance of one column and the sub-gamma scale"""
+    n = D.shape[0]
+    out = []
+    for t in range(n - abs(k)):
+        r_, s_ = t + max(0, -k), t + max(0, k)
+        row = D[r_]
+        a_s = float(row[s_])
+        rho2 = float(np.sum(np.delete(row, s_) ** 2))     # exactly 0 when all other entries of the row vanish
+        if rand == "normal":
+            out.append((r_, s_, rho2 + 2 * a_s ** 2, abs(a_s) + float(np.sqrt(a_s ** 2 + rho2))))
+        else:
+            out.append((r_, s_, rho2, 0.0))
+    return out
+
+
+def z_bound(var, c, ncols_cap, x):
+    """bound on |sum deviation| that holds with probability >= 1 - 2 exp(-x) for every stopping rule <= the cap"""
+    return float(np.sqrt(var) * np.sqrt(2.0 * ncols_cap * x) + c * x)
+
+
+def z_eval(zc, key, cap, comps=None):
+    """run the real routine; per component (t, |sum deviation|, sigma^2, c, columns drawn, columns at the cap, exact?)"""
+    D = dense_of(zc["op"]).astype(np.float64)
+    n = D.shape[0]
+    k, rand = zc["k"], zc["rand"]
+    bs = min(100, n)
+    A, cnt = counting(D, D.dtype)
+    with np.errstate(all="ignore"):
+        m, info = L.hutch.hutchinson_diag_estimate(A, k=k, tol=zc["tol"], max_iters=cap, rand=rand, key=key)
+    it = cnt[0]
+    true = np.diag(D, k)
+    res = []
+    for t, (r_, s_, var, c) in enumerate(z_components(D, k, rand)):
+        if comps is not None and t not in comps:
+            continue
+        dev = abs(float(m[t]) - float(true[t])) * it * bs
+        slack = Z_SLACK * (abs(float(true[t])) + float(np.sqrt(var)) + 1e-300) * it * bs
+        res.append({"t": t, "dev": dev, "var": var, "c": c, "cols": it * bs, "cols_cap": cap * bs, "slack": slack,
+                    "estimate": float(m[t]), "true": float(true[t]), "iterations": it})
+    return res
+
+
+def z_exceeds(cmp, x):
+    if cmp["var"] == 0.0:      # exact estimator (all other entries of the row vanish, Rademacher): rounding only
+        return not np.isclose(cmp["estimate"], cmp["true"], rtol=1e-12, atol=1e-14)
+    return cmp["dev"] > z_bound(cmp["var"], cmp["c"], cmp["cols_cap"], x) + cmp["slack"]
+
+
+def z_score(cmp):
+    """|sum deviation| in units of its standard deviation at the cap (the usual |z| when the loop ran to the cap)"""
+    if cmp["var"] == 0.0:
+        return float("inf") if z_exceeds(cmp, 1.0) else 0.0
+    return cmp["dev"] / float(np.sqrt(cmp["var"] * cmp["cols_cap"]))
+
+
+def gen_zcase(rng):
+    n = rng.randint(3, 10)
+    sym = rng.random() < 0.5
+    op = gen_op(rng, n, sym, "f64", ("dense", "dense", "kron", "sum"))
+    k = rng.randint(-(n - 1), n - 1) if rng.random() < 0.7 else 0
+    return {"op": op, "k": k, "rand": rng.choice(["normal", "rademacher"]), "cap": max(2, 2400 // n),
+            # mostly the smallest admissible tolerance (the loop runs to the cap: full power); sometimes a realistic one, so
+            # that the data-dependent stopping rule itself is under test (the bound holds for every stopping rule)
+            "tol": 0.0011 if rng.random() < 0.8 else rng.choice([0.01, 0.03])}
+
+
+def z_confirm(rng, zc, t, K, log):
+    """K replications with fresh keys and a larger cap; True iff the component exceeds the stage-2 threshold in ALL"""
+    fails = 0
+    for _ in range(K):
+        key = rng.randrange(0, 2**32)
+        cmp = z_eval(zc, key, Z_REP_FACTOR * zc["cap"], comps={t})[0]
+        ex = z_exceeds(cmp, Z_X2)
+        log.append({"key": key, "z": round(z_score(cmp), 3), "iterations": cmp["iterations"], "exceeds": bool(ex),
+                    "estimate": cmp["estimate"], "true": cmp["true"]})
+        if not ex:
+            return False     # sequential: one agreement with the truth within the bound ends the re-test
+        fails += 1
+    return fails == K
 
 
 def stream_ztest(ctx, S, cov, ncases):
-    rng = random.Random(ZSEED)          # NOT ctx.seed: deterministic outcome on an unchanged tree
-    zmax, comps = 0.0, 0
-    for ci in range(ncases):
-        n = rng.randint(3, 10)
-        sym = rng.random() < 0.5
-        op = gen_op(rng, n, sym, "f64", ("dense", "dense", "kron", "sum"))
-        D = dense_of(op).astype(np.float64)
-        k = rng.randint(-(n - 1), n - 1) if rng.random() < 0.7 else 0
-        rand = rng.choice(["normal", "rademacher"])
-        N = max(2, 2400 // n)
+    rng = random.Random(f"C17-sequential-{ctx.seed}")     # different VERIF_SEEDs test different operators AND keys
+    zcases = [gen_zcase(rng) for _ in range(ncases)]
+    C = sum(op_size(zc["op"]) - abs(zc["k"]) for zc in zcases)
+    p1, p2 = 2 * np.exp(-Z_X1), 2 * np.exp(-Z_X2)
+    K = 1
+    while C * p1 * p2 ** K > Z_ALPHA:
+        K += 1
+    zmax, comps, triggered, early, exact = 0.0, 0, [], 0, 0
+    hist = {}
+    for zc in zcases:
         key = rng.randrange(0, 2**32)
-        call = {"routine": "hutchinson_diag_estimate", "op": op, "key": key, "params": {"k": k, "rand": rand, "tol": 0.0011, "max_iters": N}}
-        A, cnt = counting(D, D.dtype)
-        with np.errstate(all="ignore"):
-            m, info = L.hutch.hutchinson_diag_estimate(A, k=k, tol=0.0011, max_iters=N, rand=rand, key=key)
-        it = cnt[0]
+        call = {"routine": "hutchinson_diag_estimate", "op": zc["op"], "key": key,
+                "params": {"k": zc["k"], "rand": zc["rand"], "tol": zc["tol"], "max_iters": zc["cap"]}}
+        res = z_eval(zc, key, zc["cap"])
         S.evals += 1
         S.cases.add(common.canon(call))
         S.nontrivial.add(common.canon(call))
-        true = np.diag(D, k)
-        zs = []
-        for t in range(n - abs(k)):
-            r_, s_ = t + max(0, -k), t + max(0, k)
-            row = D[r_]
-            var = float(np.sum(row ** 2) - row[s_] ** 2)
-            if rand == "normal":
-                var += 2 * float(row[s_] ** 2)
-            se = np.sqrt(var / (it * n))
-            if se == 0:      # exact estimator (diagonal structure): only rounding may differ
-                if not np.isclose(m[t], true[t], rtol=1e-12, atol=1e-14):
-                    zs.append(np.inf)
-                continue
-            zs.append(abs(m[t] - true[t]) / se)
-        comps += len(zs)
-        if zs:
-            zmax = max(zmax, max(zs))
-        if zs and max(zs) > ZSIGMA:
-            report(ctx, S, {"kind": "estimate-outside-6-sigma", "call": call, "iterations": it,
-                            "detail": f"max |z| = {max(zs):.2f} over {len(zs)} components; estimate {m.tolist()} true {true.tolist()}"})
-    cov["ztest_cases"] = ncases
-    cov["ztest_components"] = comps
-    cov["ztest_max_abs_z"] = round(float(zmax), 3)
-    cov["ztest_sigma"] = ZSIGMA
-    cov["ztest_seed_set"] = f"random.Random({ZSEED}) (operators, offsets, probe kinds, keys); independent of VERIF_SEED"
+        early += int(bool(res) and res[0]["iterations"] < zc["cap"])
+        for cmp in res:
+            comps += 1
+            exact += int(cmp["var"] == 0.0)
+            z = z_score(cmp)
+            zmax = max(zmax, z)
+            hb = "inf" if z == float("inf") else str(min(int(z), 6))
+            hist[hb] = hist.get(hb, 0) + 1
+            if z_exceeds(cmp, Z_X1):
+                triggered.append((zc, call, cmp))
+    confirmed = 0
+    trig_log = []
+    for zc, call, cmp in triggered:
+        if confirmed >= MAX_VIOLATION_LINES:     # enough concrete inputs; the remaining triggers are counted, not re-tested
+            break
+        log = []
+        bad = z_confirm(rng, zc, cmp["t"], K, log)
+        trig_log.append({"op": op_skel(zc["op"]), "k": zc["k"], "rand": zc["rand"], "component": cmp["t"],
+                         "stage1_z": round(z_score(cmp), 3), "replications": [{kk: e[kk] for kk in ("z", "exceeds")} for e in log],
+                         "confirmed": bool(bad)})
+        if bad:
+            confirmed += 1
+            report(ctx, S, {"kind": "estimate-biased (sequential test)", "call": call, "ztest": {"case": zc, "component": cmp["t"], "K": K},
+                            "detail": f"component {cmp['t']}: stage 1 estimate {cmp['estimate']!r} true {cmp['true']!r} "
+                                      f"(|z| = {z_score(cmp):.2f} > bound exponent {Z_X1}); all {K} replications with fresh keys and "
+                                      f"{Z_REP_FACTOR}x the samples exceed the bound with exponent {Z_X2}: {log}; "
+                                      f"false-alarm probability of the whole stream <= {Z_ALPHA}"})
+    cov["ztest"] = {
+        "cases": ncases, "components": comps, "components_exact_estimator": exact,
+        "stage1_exponent_x1": Z_X1, "stage1_threshold_z_rademacher": round(float(np.sqrt(2 * Z_X1)), 4),
+        "stage1_threshold_normal": "sqrt(2 x1) + c x1 / (sigma sqrt(N bs)),  c = |a_s| + sqrt(a_s^2 + rho^2)",
+        "stage2_exponent_x2": Z_X2, "stage2_threshold_z_rademacher": round(float(np.sqrt(2 * Z_X2)), 4),
+        "replications_K": K, "replication_sample_factor": Z_REP_FACTOR,
+        "per_component_bound_stage1": float(p1), "per_replication_bound": float(p2),
+        "false_alarm_bound_this_run": float(C * p1 * p2 ** K), "false_alarm_stated": Z_ALPHA,
+        "bound": "P(|S_tau| >= sigma sqrt(2 Nmax bs x) + c x) <= 2 exp(-x) for every stopping rule tau <= Nmax "
+                 "(Hoeffding / sub-gamma martingale bound with Ville's maximal inequality; exact variances); union bound over components",
+        "power": "a component whose expectation is off by >= (sqrt(2 x1) + 4.5) = 7.96 stage-1 standard errors (se1 = sigma/sqrt(max_iters*bs), "
+                 "about sigma/49; normal probes: + c x1/(max_iters*bs)) in a case that runs to the cap (tol = 0.0011, 80 % of the cases) is reported "
+                 "as VIOLATION with probability >= 1 - 5e-5 (same inequality, one-sided)",
+        "max_abs_z_stage1": (round(float(zmax), 3) if zmax != float("inf") else "inf"),
+        "z_histogram_stage1": dict(sorted(hist.items())),
+        "stage1_triggers": len(triggered), "stage1_triggers_retested": len(trig_log), "confirmed": confirmed, "trigger_log": trig_log[:10],
+        "cases_stopped_before_cap": early,
+        "seed_set": f"random.Random('C17-sequential-{ctx.seed}'): operators, offsets, probe kinds, tolerances AND keys depend on VERIF_SEED",
+    }
+    cov["ztest_max_abs_z"] = cov["ztest"]["max_abs_z_stage1"]
 
 
 # ------------------------------------------------------------------------------------------------
@@ -951,6 +1239,14 @@ def replay(ctx):
         for f in findings:
             report(ctx, S, dict(f, script=payload["script"]))
         print(f"replayed script: {len(findings)} finding(s)")
+    elif "ztest" in payload:
+        zt = payload["ztest"]
+        rng = random.Random(f"C17-replay-{ctx.seed}")
+        log = []
+        bad = z_confirm(rng, zt["case"], zt["component"], zt["K"], log)
+        if bad:
+            report(ctx, S, dict(payload, detail=f"re-test with fresh keys: {log}"))
+        print(f"replayed sequential test of component {zt['component']}: {'biased again' if bad else 'within the bound'}: {log}")
     elif "call" in payload and "op" in payload["call"] and payload["call"].get("routine") in ROUTINES:
         call = payload["call"]
         script = {"calls": [call], "steps": [{"user": "seed", "arg": 1}, {"user": "randn", "arg": 3}, {"call": 0, "rep": 0},
@@ -1005,7 +1301,7 @@ def run(ctx):
     cov["tol_refused"] = True
     t0 = time.time()
     try:
-        stream_scripts(ctx, S, rng, 150 if quick else 4000, trace)
+        stream_scripts(ctx, S, rng, 200 if quick else 5300, trace)   # round 2: 21 entry points instead of 16, same number of calls per routine
         t1 = time.time()
         stream_diag_exact(ctx, S, rng, 150 if quick else 5000, cov)
         stream_cap(ctx, S, rng, 200 if quick else 8000, cov)
@@ -1013,7 +1309,7 @@ def run(ctx):
         t2 = time.time()
         stream_lean(ctx, S, rng, 120 if quick else 5000, cov)
         t3 = time.time()
-        stream_ztest(ctx, S, cov, 64 if quick else 200)
+        stream_ztest(ctx, S, cov, 64 if quick else 240)
         t4 = time.time()
     finally:
         trace.uninstall()
@@ -1041,6 +1337,23 @@ def run(ctx):
     elif gate.get("bad_axioms"):
         common.violation(ctx, {"broken": "axioms", "bad": gate["bad_axioms"]}, no_input=True)
 
+    # (T') which entries of the generated table were EXECUTED in this run (dynamic trace: callers of np_fns.randn and of
+    # np.random.default_rng inside cola), and which were not
+    seen = dict(trace.sites)
+    seen.update(trace.local_sites)
+    site_rows = [{"routine": r["name"], "site": s_["label"], "loc": s_["loc"], "prim": s_["prim"], "calls": seen.get(s_["loc"], 0)}
+                 for r in lib for s_ in r["sites"]]
+    executed = [row for row in site_rows if row["calls"] > 0]
+    not_executed = [dict(row, reason=REASON_NOT_EXECUTED.get(row["loc"], "no entry point of harness/props/c17.py reached this site in this run"))
+                    for row in site_rows if row["calls"] == 0]
+    for row in not_executed:
+        print(f"NOTE C17: table site not executed in this run: {row['routine']} {row['loc']} ({row['reason']})", flush=True)
+    unknown_local = sorted(loc for loc in trace.local_sites
+                           if loc not in {s_["loc"] for r in model["routines"] for s_ in r["sites"] if s_["prim"] == "localGenerator"})
+    for loc in unknown_local:
+        report(ctx, S, {"kind": "draw-site-missing-from-table", "detail": f"np.random.default_rng was called from {loc}, which the AST scan "
+                        "did not list as a local-generator site", "no_replay": True})
+
     unkeyed = [{"routine": r["name"], "sites": [s["loc"] for s in r["sites"] if s["prim"] == "unkeyedNormalFallbackKey0"]}
                for r in lib if any(s["prim"] == "unkeyedNormalFallbackKey0" for s in r["sites"])]
     coverage = {
@@ -1049,12 +1362,24 @@ def run(ctx):
         "distinct_nontrivial": len(S.nontrivial),
         "rule": "a case is non-trivial when the call executed at least one random-draw site (counted by a transparent wrapper "
                 "around np_fns.randn; lobpcg: its local-generator site is unconditional) while the global state had been perturbed by "
-                "user draws; Lean-correspondence cases additionally need k != 0 or more than one iteration; exhaustive cases "
-                "must have consumed all 2^n blocks",
+                "user draws (routines of cola/linalg/tbd that raise after their draw count: the draw sequence is what is compared); "
+                "Lean-correspondence cases additionally need k != 0 or more than one iteration; exhaustive cases must have consumed all 2^n blocks",
         "samples": S.samples,
         "routines_covered": S.by_routine,
-        "routines_in_table_not_executable_here": ["cola.linalg.tbd.nullspace.krylov_constraint_solve_upto_r (AttributeError: C.ops)",
-                                                  "cola.linalg.tbd.svrg.* (need jax)", "cola.linalg.tbd.slq.slq_bwd (needs autograd backend)"],
+        "table_sites_library": len(site_rows),
+        "table_sites_executed": executed,
+        "table_sites_not_executed": not_executed,
+        "local_shims_used": {
+            "krylov_constraint_solve_upto_r": "operator subclass DenseWithOps supplying the attribute `ops` the routine reads (no cola operator has it: "
+                                              "AttributeError on every real operator) and nullspace.eigmax (module constant None, `# TODO: fix`) := cola.linalg.eigmax",
+            "slq_bwd": "called directly the way cola/utils/custom_autodiff.py's bwd() calls it (no autograd on NumPy); xnp.vjp_derivs "
+                       "(NumpyNotImplementedError in cola) replaced by an entry-wise exact VJP for parameter-affine functions",
+            "solve_svrg_rff": "inert stand-in module `jax` in sys.modules during the call so that the `import jax` preceding the draw succeeds; the call "
+                              "then fails at cola.linalg.eigs (AttributeError) - the draw site is executed, the rest of the routine is not",
+            "svrg_eigh_max / svrg_solveh": "no shim: the draw precedes `import jax`; the call raises ModuleNotFoundError after the draw. For calls that "
+                                           "raise, determinism is judged on the sequence of draws (site, key, sha1 of the drawn block)",
+        },
+        "dynamic_local_generator_sites": trace.local_sites,
         "exceptions_seen": S.exc,
         "operator_kinds": S.op_kinds,
         "interleavings_tried": S.interleavings,
@@ -1077,15 +1402,21 @@ def run(ctx):
         "provisional_known": list(PROVISIONAL_KNOWN),
         "trusted_base_extra": [
             "numpy.random legacy global generator: get_state/set_state round-trip the full state, seed(key) determines it (modelled abstractly as Gen.seed / Gen.draw)",
-            "harness/translators/scan_rng_sites.py (AST scan; cross-checked dynamically: every observed caller of np_fns.randn is a table site)",
+            "harness/translators/scan_rng_sites.py (AST scan; cross-checked dynamically: every observed caller of np_fns.randn / np.random.default_rng "
+            "is a table site, and every library site of the table was executed - see table_sites_executed / table_sites_not_executed)",
+            "local shims of harness/props/c17.py for cola/linalg/tbd (DenseWithOps.ops, nullspace.eigmax, vjp_affine, inert jax stand-in): ours, not cola's",
         ],
     }
     assumptions = [
         "IEEE rounding is outside the theorems; Rademacher-on-diagonal is bit-exact only for dyadic data (sums of equal doubles round), 1e-12 otherwise",
         "unbiasedness is proved for the per-probe estimator and for a FIXED number of iterations; the data-dependent stopping rule (optional stopping) "
-        "is covered by the 6-sigma z-test only",
-        "Gaussian probes: second moments E[z_j z_l] = delta_jl are a hypothesis (GaussianSecondMoments); Rademacher: proved for the uniform measure on {+-1}^n; "
-        "sign(randn) = 0 has probability 0 and is ignored",
+        "is covered by the sequential test only (its bound is a maximal inequality and holds for every stopping rule; false alarm <= 1e-9 per run)",
+        "probe laws are PROVED instances of one structure (StdEntry, Lemmas/RngLaw.lean): i.i.d. standard normal entries = Mathlib's gaussianReal 0 1 "
+        "under Measure.pi (C17_unbiased_gaussian; the former hypothesis GaussianSecondMoments is theorem C17_gaussian_second_moments, from "
+        "integral_id_gaussianReal, variance_id_gaussianReal, memLp_id_gaussianReal, iIndepFun_pi), sign of a standard normal as coded incl. sign(0) = 0 "
+        "(C17_unbiased_sign_gaussian; gaussianReal_map_neg, nullSingletonClass_gaussianReal), two-point law (C17_unbiased_rademacher_measure). CONTRACT that "
+        "remains: np.random.randn after np.random.seed(key) delivers independent N(0,1) variates (a pseudo-random generator; the sequential test's "
+        "bounds are for the ideal law, distinct keys = independent samples)",
         "capPositive: max_iters >= 1 (max_iters = 0 makes one iteration; PROVISIONAL known finding)",
         "keys are integers in [0, 2^32 - 1] (numpy's seed domain); other keys raise ValueError before the state is touched (checked)",
         "exceptions raised INSIDE np_fns.randn after np.random.seed(key) (e.g. negative shapes) would leave the state seeded; not reachable through the routines with valid operators",
